@@ -147,7 +147,7 @@ def wire_level(ctx, rng, grant, nframes):
     try:
         pos, wire = 0, w.written
         while pos < len(wire):
-            k = rng.choice([1, 8, 9, 100, 4096, len(wire)])
+            k = min(rng.choice([1, 8, 9, 100, 4096, len(wire)]), 32768)      # one read of the tunnel is at most 32 KiB
             br.next = ('d', wire[pos:pos + k])
             b.handle()
             pos += k
@@ -179,6 +179,13 @@ def run(ctx):
         ctx.count()
         ctx.mark(('wire', grant), True)
         ctx.hist('directed:wire-level-short-write')
+    # a backlog: dozens of full frames queued before the pipe takes anything (many bulk flows in one pass, or a slow
+    # pipe) — beyond any batch size or byte cap a flush might work with
+    for grant, nfr in ((1 << 20, 33), (1 << 20, 70), (65536, 40), (4096, 130)):
+        wire_level(ctx, rng, grant, nfr)
+        ctx.count()
+        ctx.mark(('wire-backlog', grant, nfr), True)
+        ctx.hist('directed:wire-level-backlog')
     for tag, fn in (('stop-with-buffered-reply', lambda: tg.stop_with_buffered_reply(ctx, rng, 'C01')),
                     ('odd-destinations', lambda: tg.odd_destinations(ctx, rng, 'C01'))):
         ins, outs = fn()
